@@ -357,15 +357,51 @@ def generate():
     return '\n'.join(g.lines) + '\n', g.problems
 
 
-def main():
-    text, problems = generate()
+def write_if_changed(path, text):
     old = None
-    if os.path.exists(OUT):
-        with open(OUT) as f:
+    if os.path.exists(path):
+        with open(path) as f:
             old = f.read()
     if old != text:
-        with open(OUT, 'w') as f:
+        os.makedirs(os.path.dirname(path), exist_ok=True)
+        with open(path, 'w') as f:
             f.write(text)
+
+
+def per_property():
+    """harness/params/<name>.py may define `generate(g, helpers)`; its output goes to
+    lean/SshuttleModel/Gen/<Name>.lean inside `namespace Sshuttle.Gen.<Name>`."""
+    import importlib
+    problems = []
+    pdir = os.path.join(HERE, 'params')
+    if not os.path.isdir(pdir):
+        return problems
+    sys.path.insert(0, HERE)
+    for fn in sorted(os.listdir(pdir)):
+        if not fn.endswith('.py') or fn.startswith('_'):
+            continue
+        name = fn[:-3]
+        cap = name[0].upper() + name[1:]
+        g = Gen()
+        g.raw('/- GENERATED by harness/params/%s from the working tree of the repository. Do not edit. -/' % fn)
+        g.raw('namespace Sshuttle.Gen.%s' % cap)
+        try:
+            mod = importlib.import_module('params.' + name)
+            importlib.reload(mod)
+            mod.generate(g, sys.modules[__name__])
+        except Exception as e:  # noqa
+            g.problems.append((name, repr(e)))
+            g.raw('-- MISSING (generator failed): %r' % (e,))
+        g.raw('end Sshuttle.Gen.%s' % cap)
+        write_if_changed(os.path.join(os.path.dirname(OUT), 'Gen', cap + '.lean'), '\n'.join(g.lines) + '\n')
+        problems.extend(g.problems)
+    return problems
+
+
+def main():
+    text, problems = generate()
+    write_if_changed(OUT, text)
+    problems = problems + per_property()
     for p in problems:
         print('extract_params: MISSING %s: %s' % p, file=sys.stderr)
     return problems
